@@ -116,6 +116,109 @@ theorem c20_total (a : Str) :
     obtain ⟨h1, h2, h3, h4, h5, _⟩ := c20_accessors a t na h p hv hp
     simp [h1, h2, h3, h4, h5]
 
+/-! ### resolution and public / private
+`Resolve`, `NetworkAddressResolved`, `Public` with the DNS lookup as a parameter `lk` (`none` = error). -/
+
+/-- the host of a valid address never is the bracketed `"[::]"` the code tests for (brackets are removed by
+`SplitHostPort`): that branch of `Resolve` is dead; `tcp://[::]:80` has host `::`, an IP literal. -/
+theorem c20_resolve_bracket_dead (a t na h p : Str) (hp : Parse a t na h p) : h ≠ bracketAny := by
+  obtain ⟨_, _, _, hhp⟩ := hp
+  intro e
+  have := (hostPort_noSq hhp).1 91 (by simp [e, bracketAny])
+  simp at this
+
+/-- **what `Resolve` returns for a valid address**: an IP-literal host as it is, without consulting the DNS; a host
+name (not an IP literal) whatever the lookup answers first, or `""` when it fails; `""` for the empty host — and
+the DNS is consulted exactly for host names, with the host as the question. -/
+theorem c20_resolve_cases (lk : Str → Option (List Str)) (a t na h p : Str) (hv : valid a = true)
+    (hp : Parse a t na h p) :
+    lookedUp a = (if validHostname h && !parseIP h then some h else none) ∧
+    resolve lk a =
+      (if parseIP h then some h
+       else if validHostname h then (match lk h with | none => some [] | some l => l.head?)
+       else some []) := by
+  have hb := c20_resolve_bracket_dead a t na h p hp
+  obtain ⟨_, _, hh, _, hi, _, _⟩ := c20_accessors a t na h p hv hp
+  unfold lookedUp resolve
+  simp only [hv, hh, hi, hb]
+  cases hip : parseIP h <;> cases hvh : validHostname h <;> simp [hb, hip]
+  cases lk h <;> rfl
+
+/-- `Resolve` answers `""` for the empty host (`tcp://:80` means "all addresses") -/
+theorem c20_resolve_empty_host (lk : Str → Option (List Str)) (a t na p : Str) (hv : valid a = true)
+    (hp : Parse a t na [] p) : resolve lk a = some [] ∧ lookedUp a = none := by
+  obtain ⟨h1, h2⟩ := c20_resolve_cases lk a t na [] p hv hp
+  have e1 : parseIP [] = false := by decide
+  have e2 : validHostname [] = false := by decide
+  rw [h2, h1]
+  simp [e1, e2]
+
+/-- for an IP-literal host the DNS is irrelevant -/
+theorem c20_resolve_ip_independent (lk lk' : Str → Option (List Str)) (a t na h p : Str) (hv : valid a = true)
+    (hp : Parse a t na h p) (hip : parseIP h = true) : resolve lk a = some h ∧ resolve lk' a = some h := by
+  rw [(c20_resolve_cases lk a t na h p hv hp).2, (c20_resolve_cases lk' a t na h p hv hp).2]
+  simp [hip]
+
+/-- **for an invalid address**: `Resolve` and `NetworkAddressResolved` return `""`, `Public` is false, and the DNS
+is not consulted -/
+theorem c20_resolve_invalid (lk : Str → Option (List Str)) (a : Str) (hv : valid a = false) :
+    resolve lk a = some [] ∧ networkAddressResolved lk a = some [] ∧ isPublic lk a = some false ∧ lookedUp a = none := by
+  have e : privateRe [] = false := by decide
+  simp [resolve, networkAddressResolved, isPublic, lookedUp, hv, e]
+
+/-- **totality of resolution**: if the lookup never answers with an empty list and no error (`net.LookupHost`
+does not), `Resolve`, `NetworkAddressResolved` and `Public` cannot panic, whatever the string -/
+theorem c20_resolve_total (lk : Str → Option (List Str)) (hlk : ∀ h, lk h ≠ some []) (a : Str) :
+    (resolve lk a).isSome ∧ (networkAddressResolved lk a).isSome ∧ (isPublic lk a).isSome := by
+  cases hv : valid a with
+  | false =>
+    obtain ⟨h1, h2, h3, _⟩ := c20_resolve_invalid lk a hv
+    simp [h1, h2, h3]
+  | true =>
+    obtain ⟨t, na, h, p, hp⟩ := c20_valid_has_parse a hv
+    obtain ⟨_, _, _, hport, _⟩ := c20_accessors a t na h p hv hp
+    have hr : (resolve lk a).isSome := by
+      rw [(c20_resolve_cases lk a t na h p hv hp).2]
+      cases parseIP h <;> cases validHostname h <;> simp
+      cases hl : lk h with
+      | none => simp
+      | some l =>
+        cases l with
+        | nil => exact absurd hl (hlk h)
+        | cons x r => simp
+    obtain ⟨ip, hip⟩ := Option.isSome_iff_exists.mp hr
+    have hn : networkAddressResolved lk a = some (joinHostPort ip p) := by
+      simp [networkAddressResolved, hv, hip, hport]
+    refine ⟨hr, by simp [hn], ?_⟩
+    unfold isPublic
+    rw [hn]
+    cases hpr : privateRe (joinHostPort ip p) <;> simp [hpr]
+
+/-- an empty answer without error is the one way to make `Resolve` panic (`ipAddress[0]`): the hypothesis of
+`c20_resolve_total` is needed -/
+theorem c20_resolve_empty_answer_panics :
+    resolve (fun _ => some []) [116, 99, 112, 58, 47, 47, 97, 46, 98, 58, 56, 48] = none := by decide
+
+/-- **the resolved network address of a valid address** is the resolved host joined with the port -/
+theorem c20_resolved_address (lk : Str → Option (List Str)) (a t na h p ip : Str) (hv : valid a = true)
+    (hp : Parse a t na h p) (hr : resolve lk a = some ip) :
+    networkAddressResolved lk a = some (joinHostPort ip p) := by
+  obtain ⟨_, _, _, hport, _⟩ := c20_accessors a t na h p hv hp
+  simp [networkAddressResolved, hv, hr, hport]
+
+/-- **a public address is valid, and its resolved network address matches none of the private patterns** -/
+theorem c20_public (lk : Str → Option (List Str)) (a : Str) (h : isPublic lk a = some true) :
+    valid a = true ∧ ∃ s, networkAddressResolved lk a = some s ∧ privateRe s = false := by
+  unfold isPublic at h
+  cases hn : networkAddressResolved lk a with
+  | none => simp [hn] at h
+  | some s =>
+    simp only [hn] at h
+    cases hp : privateRe s
+    · simp [hp] at h
+      exact ⟨h, s, rfl, hp⟩
+    · simp [hp] at h
+
 /-! ### listen address -/
 
 /-- **the listen address is an error or a usable host:port consistent with its inputs**: it is
@@ -656,6 +759,50 @@ theorem c20_gen_getWSHostPort_eq (si : SI) (global : Bool) (urlParse : Str → O
           · cases hpu : parseUint16 po with
             | none => simp [R.ofGen, hpe]
             | some n => cases global <;> simp [R.ofGen, hpe]
+
+/-- `Address.Resolve` as translated (the package variable `lookupHost` a parameter) = the model's `resolve` -/
+theorem c20_gen_Address_Resolve_eq (lk : Str → Option (List Str)) (a : Str) :
+    Gen.C20.Address_Resolve a lk = resolve lk a := by
+  unfold Gen.C20.Address_Resolve resolve bracketAny
+  simp only [c20_gen_Address_Valid_eq, c20_gen_Address_Host_eq, c20_gen_Address_IsHostname_eq]
+  obtain ⟨_, _, hh, _, hi⟩ := c20_total a
+  cases hv : valid a with
+  | false => simp
+  | true =>
+    cases hho : host a with
+    | none => simp [hho] at hh
+    | some h =>
+      cases hih : isHostname a with
+      | none => simp [hih] at hi
+      | some ih =>
+        by_cases h1 : h = [91, 58, 58, 93]
+        · simp [h1]
+        · cases hip : parseIP h <;> cases ih <;> simp [h1, hip]
+          cases hlk : lk h with
+          | none => simp
+          | some l => cases l <;> simp [idx_zero]
+
+/-- `Address.NetworkAddressResolved` as translated = the model's `networkAddressResolved` -/
+theorem c20_gen_Address_NetworkAddressResolved_eq (lk : Str → Option (List Str)) (a : Str) :
+    Gen.C20.Address_NetworkAddressResolved a lk = networkAddressResolved lk a := by
+  unfold Gen.C20.Address_NetworkAddressResolved networkAddressResolved
+  simp only [c20_gen_Address_Valid_eq, c20_gen_Address_Resolve_eq, c20_gen_Address_Port_eq]
+  obtain ⟨_, _, _, hp, _⟩ := c20_total a
+  cases hv : valid a with
+  | false => simp
+  | true =>
+    cases hpo : port a with
+    | none => simp [hpo] at hp
+    | some p => cases resolve lk a <;> simp
+
+/-- `Address.Public` as translated (`!private && a.Valid()`: `Valid` only when not private) = the model's `isPublic` -/
+theorem c20_gen_Address_Public_eq (lk : Str → Option (List Str)) (a : Str) :
+    Gen.C20.Address_Public a lk = isPublic lk a := by
+  unfold Gen.C20.Address_Public isPublic
+  simp only [c20_gen_Address_Valid_eq, c20_gen_Address_NetworkAddressResolved_eq]
+  cases networkAddressResolved lk a with
+  | none => simp
+  | some s => cases hp : privateRe s <;> simp [hp]
 
 end GenEq
 
